@@ -187,3 +187,45 @@ Definition ex_case (locks0 : nat) : mcase :=
      mkRound [CLeave 1] 0 true [] [(0, 0)] [] []].
 Example ex_replay : replay_case (ex_case 2) = 0%N /\ replay_case (ex_case 1) <> 0%N.
 Proof. split; [vm_compute; reflexivity | vm_compute; discriminate]. Qed.
+
+(* the trace (with pre-states) of a label list *)
+Fixpoint trace_of (st : state) (ls : list label) : list (state * label) :=
+  match ls with
+  | [] => []
+  | l :: r => (st, l) :: match step st l with Some st' => trace_of st' r | None => [] end
+  end.
+
+Lemma run_admb_atrace st ls : run_admb st ls = true -> exists st', atrace st (trace_of st ls) st'.
+Proof.
+  revert st. induction ls as [|l ls IH]; intros st; simpl; [intros _; eexists; constructor|].
+  intro H. apply andb_true_iff in H as [H1 H2].
+  destruct (step st l) as [st1|] eqn:E; [|discriminate].
+  destruct (IH _ H2) as [st' T]. exists st'. econstructor; eauto. apply admb_adm; assumption.
+Qed.
+
+(* C14_one_per_release is about something: in the example run Lock(0) returns
+   twice and the holder's Unlock(0) is taken twice *)
+Example ex_one_per_release :
+  exists st', atrace (init ex_scripts 3) (trace_of (init ex_scripts 3) ex_run) st' /\
+    cnt (is_grant 0) (trace_of (init ex_scripts 3) ex_run) = 2 /\
+    cnt (is_release 0) (trace_of (init ex_scripts 3) ex_run) = 2.
+Proof.
+  destruct (run_admb_atrace (init ex_scripts 3) ex_run) as [st' T]; [vm_compute; reflexivity|].
+  exists st'. split; [exact T|]. split; vm_compute; reflexivity.
+Qed.
+
+(* the hypotheses of C14_spurious and C14_independent are satisfiable in
+   reachable states: an Unlock of a key nobody holds; a Lock on a free key
+   while another key is held and awaited *)
+Example ex_spurious_hyp :
+  exists st, run (init [[OUnlock 0]] 0) [LStart 0] = Some st /\
+    mgr st = MIdle /\ nth_error (gs st) 0 = Some (mkG (GSpur 0) []) /\ lk st 0 = 0.
+Proof. eexists. repeat split; reflexivity. Qed.
+
+Example ex_independent_hyp :
+  exists st, run (init [[OLock 0]; [OLock 0]; [OLock 1]] 0)
+               [LStart 0; LAcquire 0; LMgrGet false; LGet 0 false; LGrant 0;
+                LStart 1; LAcquire 1; LMgrGet false; LGet 1 false; LStart 2] = Some st /\
+    holds st 0 0 /\ cA st 0 = 1 /\
+    nth_error (gs st) 2 = Some (mkG (GSendAcq 1) []) /\ cA st 1 = 0 /\ cH st 1 = 0.
+Proof. eexists. split; [vm_compute; reflexivity|]. split; [exists []; left; reflexivity|]. repeat split; reflexivity. Qed.
